@@ -435,7 +435,7 @@ def illtyped_cases(draw, tier):
             "mode": draw(st.sampled_from(
                 ["offset", "cod", "dom", "lengths", "non-int", "negative",
                  "swap-composite", "cup-non-adjoint", "cup-composite",
-                 "not-a-type", "empty", "empty"])),
+                 "not-a-type", "empty", "empty", "pro-mix"])),
             "t": draw(gen.types(cls, 1, 2, gen.CLASS_NAMES.get(
                 cls, gen.NAMES)))}
 
@@ -538,6 +538,24 @@ def check_illtyped(case):
                    "x", specs.ty(cls, sc[-1]), boxes, offsets)
                if cls != "cat" else specs.mod(cls).Arrow(
                    "x", specs.ty(cls, sc[-1]), boxes), "dom is a string")
+    elif mode == "pro-mix" and cls in ("monoidal", "rigid", "zx",
+                                       "cartesian"):
+        # wires counted by a PRO against wires named by other integers
+        # (dimensions): not the same objects, whatever their number
+        from discopy import monoidal, rigid, tensor
+        m = rigid if cls == "rigid" else monoidal
+        pro = good if cls in ("zx", "cartesian") else m.Box(
+            "g", m.PRO(1), m.PRO(2))
+        n = 2 + abs(case["delta"])
+        for other, what in (
+                (m.Box("f", m.Ty(n), m.Ty(n + 1)), "Ty({})".format(n)),
+                (tensor.Box("v", tensor.Dim(n), tensor.Dim(n, n),
+                            list(range(n ** 3))), "Dim({})".format(n))):
+            refuse(lambda: pro @ other, "PRO-typed @ {}-typed".format(what))
+            refuse(lambda: pro.id(pro.dom[:1]) @ other,
+                   "Id(PRO(1)) @ {}-typed".format(what))
+            if len(pro.cod) == 1:
+                refuse(lambda: pro >> other, "PRO-typed >> " + what)
     else:
         return dict(nt=False, labels=["n/a"])
     return dict(nt=True, labels=[label], show=common.show(good))
